@@ -37,26 +37,60 @@ theorem foldl_joinOne_n2h (nick : Str) (names : List Str) (b : Bot) :
   | nil => rfl
   | cons n ns ih => rw [List.foldl_cons, ih, (joinOne_fields nick b n).2.2.1]
 
+theorem Tracks.append_true {full : Prop} {S : List Str} {ms : List (Str × Flags)} {P : Flags → Prop}
+    (h : Tracks full S ms P) (k : Str) (f0 : Flags) (hp : P f0) : Tracks full (sadd S k) (ms ++ [(k, f0)]) P where
+  sub := fun x hx => by
+    rcases mem_sadd.mp hx with rfl | hx
+    · exact ⟨f0, by simp, hp⟩
+    · obtain ⟨f, hf, hpf⟩ := h.sub x hx
+      exact ⟨f, List.mem_append_left _ hf, hpf⟩
+  sup := fun hfull x ⟨f, hf, hpf⟩ => by
+    rcases List.mem_append.mp hf with hf | hf
+    · exact mem_sadd.mpr (Or.inr (h.sup hfull x ⟨f, hf, hpf⟩))
+    · simp only [List.mem_singleton, Prod.mk.injEq] at hf
+      exact mem_sadd.mpr (Or.inl hf.1)
+
+theorem Tracks.append_false {full : Prop} {S : List Str} {ms : List (Str × Flags)} {P : Flags → Prop}
+    (h : Tracks full S ms P) (k : Str) (f0 : Flags) (hp : ¬ P f0) : Tracks full S (ms ++ [(k, f0)]) P where
+  sub := fun x hx => by
+    obtain ⟨f, hf, hpf⟩ := h.sub x hx
+    exact ⟨f, List.mem_append_left _ hf, hpf⟩
+  sup := fun hfull x ⟨f, hf, hpf⟩ => by
+    rcases List.mem_append.mp hf with hf | hf
+    · exact h.sup hfull x ⟨f, hf, hpf⟩
+    · simp only [List.mem_singleton, Prod.mk.injEq] at hf
+      rw [hf.2] at hpf; exact absurd hpf hp
+
+/-- what the bot knows about users the server has shown it stays right when one more is shown -/
+theorem coupled_told_add {s : Srv} {b : Bot} (hc : Coupled s b) {k : Str}
+    (hk : ∀ u, aget s.users k = some u → aget b.n2h k = some u.mask) :
+    Coupled { s with told := sadd s.told k } b := by
+  refine ⟨hc.nick, hc.chans, ?_, hc.pfx, hc.cfgNick, hc.cfgIdent⟩
+  intro k' u hu ht
+  have ht' : k' ∈ sadd s.told k := ht
+  rcases mem_sadd.mp ht' with rfl | h
+  · exact hk u hu
+  · exact hc.hosts k' u hu h
+
 /-- JOIN of user `k` (not the bot), channel by channel, against the bot executing the JOIN for the
 channels it is on -/
 theorem joinOthers_sim (k : Str) (u : SUser) (hk : lower u.nick = k) (cs : List Str) :
     ∀ (s : Srv) (b : Bot), SrvWF s → Coupled s b → aget s.users k = some u → k ≠ s.botKey →
-      ((s.joinOthers k cs).2 ≠ [] → aget b.n2h k = some u.mask) →
       Coupled (s.joinOthers k cs).1 ((s.joinOthers k cs).2.foldl (Bot.joinOne u.nick) b) ∧
-      (∀ n ∈ (s.joinOthers k cs).2, ',' ∉ n) := by
+      (∀ n ∈ (s.joinOthers k cs).2, ',' ∉ n) ∧ (s.joinOthers k cs).1.users = s.users := by
   induction cs with
-  | nil => intro s b _ hc _ _ _; exact ⟨hc, by simp [Srv.joinOthers]⟩
+  | nil => intro s b _ hc _ _; exact ⟨hc, by simp [Srv.joinOthers], rfl⟩
   | cons c cs ih =>
-    intro s b hw hc hu hkb hn2h
-    unfold Srv.joinOthers at hn2h ⊢
+    intro s b hw hc hu hkb
+    unfold Srv.joinOthers
     have huo := hw.uok hu
     cases he : s.enter k c with
     | none =>
-      simp only [he] at hn2h ⊢
-      exact ih s b hw hc hu hkb hn2h
+      simp only []
+      exact ih s b hw hc hu hkb
     | some r =>
       obtain ⟨s1, name⟩ := r
-      simp only [he] at hn2h ⊢
+      simp only []
       have hw1 : SrvWF s1 := enter_wf hw (by simp [hu]) he
       have hus1 := enter_users he
       have hu1 : aget s1.users k = some u := by rw [hus1.1]; exact hu
@@ -74,14 +108,14 @@ theorem joinOthers_sim (k : Str) (u : SUser) (hk : lower u.nick = k) (cs : List 
           rw [Srv.chan_eq] at hch
           simp only [Srv.chan_eq, hch] at he
           cases he
-          simp only [Srv.chan_eq, hch, Option.any_none, Bool.false_eq_true, ↓reduceIte] at hn2h ⊢
+          simp only [Srv.chan_eq, hch, Option.any_none, Bool.false_eq_true, ↓reduceIte]
           rw [hch] at hrel
           have hbn : aget b.channels (lower c) = none := by
             cases hbc : aget b.channels (lower c) with
             | none => rfl
             | some ch => rw [hbc] at hrel; simp only [ChanRel] at hrel
           have hcoup : Coupled { s with chans := aset s.chans (lower c) { name := c, members := [(k, { o := true })] } } b := by
-            refine coupled_update' hc hw.chansNodup (lower c) rfl rfl rfl (nodup_akeys_aset hw.chansNodup _ _)
+            refine coupled_update' hc (lower c) rfl rfl rfl rfl rfl rfl
               (fun k' hk' => aget_aset_ne _ _ (Ne.symm hk')) (fun _ _ => rfl) ?_ rfl rfl rfl rfl rfl ?_ ?_
             · rw [aget_aset_self, hbn]
               simp only [ChanRel]
@@ -96,7 +130,8 @@ theorem joinOthers_sim (k : Str) (u : SUser) (hk : lower u.nick = k) (cs : List 
               intro f hf
               simp only [List.mem_singleton, Prod.mk.injEq] at hf
               exact hkb hf.1.symm
-          exact ih _ b hw1 hcoup hu1 hkb1 hn2h
+          obtain ⟨i1, i2, i3⟩ := ih _ b hw1 hcoup hu1 hkb1
+          exact ⟨i1, i2, i3⟩
         | some sc =>
           rw [Srv.chan_eq] at hch
           simp only [Srv.chan_eq, hch] at he
@@ -107,12 +142,11 @@ theorem joinOthers_sim (k : Str) (u : SUser) (hk : lower u.nick = k) (cs : List 
             have hcw := hw.chans _ _ hch
             rw [hch] at hrel
             have hnot' : sc.has k = false := by simpa using hnot
-            simp only [Srv.chan_eq, hch, Option.any_some] at hn2h ⊢
+            simp only [Srv.chan_eq, hch, Option.any_some]
             by_cases hb : s.botIn sc = true
             · -- the bot is on the channel and sees the JOIN
-              simp only [hb, ↓reduceIte, List.foldl_cons] at hn2h ⊢
+              simp only [hb, ↓reduceIte, List.foldl_cons]
               have hb' : sc.has s.botKey = true := hb
-              have hn := hn2h (by simp)
               cases hbc : aget b.channels (lower c) with
               | none => rw [hbc] at hrel; simp only [ChanRel] at hrel; rw [hb'] at hrel; cases hrel
               | some ch =>
@@ -122,67 +156,29 @@ theorem joinOthers_sim (k : Str) (u : SUser) (hk : lower u.nick = k) (cs : List 
                     (Bot.joinOne u.nick b sc.name) := by
                   unfold Bot.joinOne
                   simp only [hchan, Bot.setChan, hcw.key, addUser_plain huo.nick, hk]
-                  refine coupled_update hc (lower c) rfl rfl rfl (nodup_akeys_aset hw.chansNodup _ _)
-                    (fun k' hk' => aget_aset_ne _ _ (Ne.symm hk')) (fun k' hk' => aget_aset_ne _ _ (Ne.symm hk')) ?_ rfl rfl rfl
-                    (fun _ _ _ h => h) ?_ (fun _ _ h => h) ?_
+                  refine coupled_update' hc (lower c) rfl rfl rfl rfl rfl rfl
+                    (fun k' hk' => aget_aset_ne _ _ (Ne.symm hk')) (fun k' hk' => aget_aset_ne _ _ (Ne.symm hk')) ?_ rfl rfl rfl rfl rfl ?_ ?_
                   · simp only [aget_aset_self, ChanRel]
                     refine ⟨?_, ?_⟩
                     · rw [has_iff] at hb' ⊢
                       obtain ⟨f, hf⟩ := hb'
                       exact ⟨f, List.mem_append_left _ hf⟩
                     · have hm := hrel.2
-                      refine ⟨?_, ?_, ?_, ?_, hm.topic, hm.modes, hm.bans⟩
-                      · intro x
-                        simp only [mem_sadd, hm.users, List.mem_append, List.mem_singleton, Prod.mk.injEq]
-                        constructor
-                        · rintro (rfl | ⟨f, hf⟩)
-                          · exact ⟨{}, Or.inr ⟨rfl, rfl⟩⟩
-                          · exact ⟨f, Or.inl hf⟩
-                        · rintro ⟨f, hf | ⟨rfl, _⟩⟩
-                          · exact Or.inr ⟨f, hf⟩
-                          · exact Or.inl rfl
-                      · intro x
-                        simp only [hm.ops, List.mem_append, List.mem_singleton, Prod.mk.injEq]
-                        constructor
-                        · rintro ⟨f, hf, ho⟩; exact ⟨f, Or.inl hf, ho⟩
-                        · rintro ⟨f, hf | ⟨_, rfl⟩, ho⟩
-                          · exact ⟨f, hf, ho⟩
-                          · cases ho
-                      · intro x
-                        simp only [hm.halfops, List.mem_append, List.mem_singleton, Prod.mk.injEq]
-                        constructor
-                        · rintro ⟨f, hf, ho⟩; exact ⟨f, Or.inl hf, ho⟩
-                        · rintro ⟨f, hf | ⟨_, rfl⟩, ho⟩
-                          · exact ⟨f, hf, ho⟩
-                          · cases ho
-                      · intro x
-                        simp only [hm.voices, List.mem_append, List.mem_singleton, Prod.mk.injEq]
-                        constructor
-                        · rintro ⟨f, hf, ho⟩; exact ⟨f, Or.inl hf, ho⟩
-                        · rintro ⟨f, hf | ⟨_, rfl⟩, ho⟩
-                          · exact ⟨f, hf, ho⟩
-                          · cases ho
-                  · intro sc' k' u' h' _ hk' hu'
-                    rw [aget_aset_self] at h'; cases h'
-                    rw [has_iff] at hk'
-                    obtain ⟨f, hf⟩ := hk'
-                    simp only [List.mem_append, List.mem_singleton, Prod.mk.injEq] at hf
-                    rcases hf with hf | ⟨rfl, _⟩
-                    · apply hc.hosts k' u' hu'
-                      exact (visible_iff hw.chansNodup).mpr ⟨lower c, sc, hch, hb', has_iff.mpr ⟨f, hf⟩⟩
-                    · rw [hu] at hu'; cases hu'; exact hn
-                  · intro sc' h' _
-                    exact hc.pfx (lower c) sc hch hb'
-                obtain ⟨ih1, ih2⟩ := ih _ _ hw1 hcoup hu1 hkb1
-                  (fun _ => by rw [(joinOne_fields u.nick b sc.name).2.2.1]; exact hn)
-                refine ⟨ih1, ?_⟩
+                      exact ⟨hm.users.append_true k {} trivial, hm.ops.append_false k {} (by simp),
+                        hm.halfops.append_false k {} (by simp), hm.voices.append_false k {} (by simp),
+                        hm.topic, hm.modes, hm.modesFull, hm.bans, hm.bansFull⟩
+                  · intro sc0 sc' h0 _ _
+                    rw [hch] at h0; cases h0; exact hb'
+                  · intro sc' h0; rw [hch] at h0; cases h0
+                obtain ⟨ih1, ih2, ih3⟩ := ih _ _ hw1 hcoup hu1 hkb1
+                refine ⟨ih1, ?_, ih3⟩
                 intro n hn'
                 simp only [List.mem_cons] at hn'
                 rcases hn' with rfl | hn'
                 · exact chan_noComma_of_valid hcw.name
                 · exact ih2 n hn'
             · -- the bot is not on that channel
-              simp only [hb, Bool.false_eq_true, ↓reduceIte] at hn2h ⊢
+              simp only [hb, Bool.false_eq_true, ↓reduceIte]
               have hb' : sc.has s.botKey = false := by simpa [Srv.botIn] using hb
               have hbn : aget b.channels (lower c) = none := by
                 cases hbc : aget b.channels (lower c) with
@@ -196,28 +192,39 @@ theorem joinOthers_sim (k : Str) (u : SUser) (hk : lower u.nick = k) (cs : List 
                 · exact hb' f hf
                 · exact hkb e.symm
               have hcoup : Coupled { s with chans := aset s.chans (lower c) { sc with members := sc.members ++ [(k, {})] } } b := by
-                refine coupled_update' hc hw.chansNodup (lower c) rfl rfl rfl (nodup_akeys_aset hw.chansNodup _ _)
+                refine coupled_update' hc (lower c) rfl rfl rfl rfl rfl rfl
                   (fun k' hk' => aget_aset_ne _ _ (Ne.symm hk')) (fun _ _ => rfl) ?_ rfl rfl rfl rfl rfl ?_ ?_
                 · rw [aget_aset_self, hbn]; simp only [ChanRel]; exact hnb
                 · intro sc0 sc' h0 h' hb''
                   rw [aget_aset_self] at h'; cases h'
                   rw [hnb] at hb''; cases hb''
                 · intro sc' h0; rw [hch] at h0; cases h0
-              exact ih _ b hw1 hcoup hu1 hkb1 hn2h
+              obtain ⟨i1, i2, i3⟩ := ih _ b hw1 hcoup hu1 hkb1
+              exact ⟨i1, i2, i3⟩
 
 theorem joinArgs_cons (cfg : Cfg) (names : Str) : ∃ rest, joinArgs cfg names = names :: rest := by
   unfold joinArgs; split <;> exact ⟨_, rfl⟩
 
+theorem foldl_joinOne_fields (nick : Str) (names : List Str) (b : Bot) :
+    (names.foldl (Bot.joinOne nick) b).n2h = b.n2h := by
+  induction names generalizing b with
+  | nil => rfl
+  | cons n ns ih => rw [List.foldl_cons, ih, (joinOne_fields nick b n).2.2.1]
+
 theorem coupled_join_others {s : Srv} {b : Bot} (hw : SrvWF s) (hc : Coupled s b) (n : Str) (cs : List Str)
     {u : SUser} (hu : aget s.users (lower n) = some u) (hnb : lower n ≠ s.botKey) :
-    Coupled (s.joinOthers (lower n) cs).1
-      (b.recvAll (if (s.joinOthers (lower n) cs).2.isEmpty then []
-        else [emit u.mask "JOIN" (joinArgs s.cfg (commaJoin (s.joinOthers (lower n) cs).2))])) := by
+    Coupled
+      (if (s.joinOthers (lower n) cs).2.isEmpty then ((s.joinOthers (lower n) cs).1, ([] : List Ev))
+        else ({ (s.joinOthers (lower n) cs).1 with told := sadd (s.joinOthers (lower n) cs).1.told (lower n) },
+              [emit u.mask "JOIN" (joinArgs s.cfg (commaJoin (s.joinOthers (lower n) cs).2))])).1
+      (b.recvAll (if (s.joinOthers (lower n) cs).2.isEmpty then ((s.joinOthers (lower n) cs).1, ([] : List Ev))
+        else ({ (s.joinOthers (lower n) cs).1 with told := sadd (s.joinOthers (lower n) cs).1.told (lower n) },
+              [emit u.mask "JOIN" (joinArgs s.cfg (commaJoin (s.joinOthers (lower n) cs).2))])).2) := by
   have hkey := (hw.userOK hu).1
   by_cases hemp : (s.joinOthers (lower n) cs).2.isEmpty = true
   · simp only [hemp, ↓reduceIte, recvAll_nil]
     have he : (s.joinOthers (lower n) cs).2 = [] := by simpa using hemp
-    have := (joinOthers_sim (lower n) u hkey cs s b hw hc hu hnb (fun h => absurd he h)).1
+    have := (joinOthers_sim (lower n) u hkey cs s b hw hc hu hnb).1
     rw [he] at this; exact this
   · simp only [hemp, Bool.false_eq_true, ↓reduceIte, recvAll_cons, recv_emit, recvAll_nil]
     obtain ⟨rest, hargs⟩ := joinArgs_cons s.cfg (commaJoin (s.joinOthers (lower n) cs).2)
@@ -225,43 +232,35 @@ theorem coupled_join_others {s : Srv} {b : Bot} (hw : SrvWF s) (hc : Coupled s b
       (setters_out_ok "JOIN".toList (by decide)) (by decide)
       (fun b0 => by simp only [Bot.ircCmd, cmdOf_JOIN, hargs]; split <;> rfl)
     rw [hfeed]
-    have hn2h : aget (b.seen u).n2h (lower n) = some u.mask := by
-      show aget (aset b.n2h (lower u.nick) u.mask) (lower n) = _
-      rw [hkey, aget_aset_self]
-    obtain ⟨h1, h2⟩ := joinOthers_sim (lower n) u hkey cs s (b.seen u) hw hc0 hu hnb (fun _ => hn2h)
+    obtain ⟨h1, h2, h3⟩ := joinOthers_sim (lower n) u hkey cs s (b.seen u) hw hc0 hu hnb
     have hsplit : splitChar ',' (commaJoin (s.joinOthers (lower n) cs).2) = (s.joinOthers (lower n) cs).2 := by
       apply splitChar_joinChar
       · intro e; apply hemp; simp [e]
       · exact h2
     simp only [Bot.stateCmd, cmdOf_JOIN, Bot.doJoin, hargs, hsplit, msg_nick_user (hw.uok hu)]
-    exact h1
+    apply coupled_told_add h1
+    intro u' hu'
+    rw [h3, hu] at hu'; cases hu'
+    rw [foldl_joinOne_fields, ← hkey]
+    exact seen_n2h b u
 
 /-! ### QUIT -/
 
-/-- removing a nick that is not on the channel changes nothing the view can see -/
-theorem chanMatches_remove_absent {sc : SChan} {ch : Chan} (h : ChanMatches sc ch) {k : Str} (hk : sc.has k = false) :
-    ChanMatches (sc.remove k) ch := by
-  rw [has_false_iff] at hk
-  have key : ∀ (P : Flags → Prop) (x : Str), (∃ f, (x, f) ∈ (sc.remove k).members ∧ P f) ↔ ∃ f, (x, f) ∈ sc.members ∧ P f := by
-    intro P x
-    simp only [SChan.remove, List.mem_filter, bne_iff_ne, ne_eq]
-    constructor
-    · rintro ⟨f, ⟨hf, _⟩, hp⟩; exact ⟨f, hf, hp⟩
-    · rintro ⟨f, hf, hp⟩; exact ⟨f, ⟨hf, fun e => hk f (e ▸ hf)⟩, hp⟩
-  refine ⟨?_, ?_, ?_, ?_, h.topic, h.modes, h.bans⟩
-  · intro x; rw [h.users]
-    have := key (fun _ => True) x
-    simpa using this.symm
-  · intro x; rw [h.ops]; exact (key (fun f => f.o = true) x).symm
-  · intro x; rw [h.halfops]; exact (key (fun f => f.h = true) x).symm
-  · intro x; rw [h.voices]; exact (key (fun f => f.v = true) x).symm
+theorem Tracks.remove_absent {full : Prop} {S : List Str} {ms : List (Str × Flags)} {P : Flags → Prop}
+    (h : Tracks full S ms P) {k : Str} (hk : ∀ f, (k, f) ∉ ms) : Tracks full S (ms.filter (fun p => p.1 != k)) P where
+  sub := fun x hx => by
+    obtain ⟨f, hf, hp⟩ := h.sub x hx
+    refine ⟨f, List.mem_filter.mpr ⟨hf, ?_⟩, hp⟩
+    simp only [bne_iff_ne, ne_eq]
+    intro e; subst e; exact hk f hf
+  sup := fun hfull x ⟨f, hf, hp⟩ => h.sup hfull x ⟨f, (List.mem_filter.mp hf).1, hp⟩
 
-theorem visible_dropEverywhere {s : Srv} (hn : (akeys s.chans).Nodup) {k x : Str}
-    (h : ({ s.dropEverywhere k with users := adel s.users k } : Srv).visible x = true) : s.visible x = true := by
-  have hn' : (akeys ({ s.dropEverywhere k with users := adel s.users k } : Srv).chans).Nodup := nodup_dropEverywhere hn k
-  obtain ⟨kc, sc', hsc', h1, h2⟩ := (visible_iff hn').mp h
-  obtain ⟨sc, hsc, rfl⟩ := dropEverywhere_chan hn hsc'
-  exact (visible_iff hn).mpr ⟨kc, sc, hsc, has_remove_of h1, has_remove_of h2⟩
+/-- removing a nick that is not on the channel changes nothing the view can see -/
+theorem chanMatches_remove_absent {mp ms bs : Bool} {sc : SChan} {ch : Chan} (h : ChanMatches mp ms bs sc ch) {k : Str}
+    (hk : sc.has k = false) : ChanMatches mp ms bs (sc.remove k) ch := by
+  rw [has_false_iff] at hk
+  exact ⟨h.users.remove_absent hk, h.ops.remove_absent hk, h.halfops.remove_absent hk, h.voices.remove_absent hk,
+    h.topic, h.modes, h.modesFull, h.bans, h.bansFull⟩
 
 theorem coupled_quit {s : Srv} {b : Bot} (hw : SrvWF s) (hc : Coupled s b) (n r : Str) :
     Coupled (s.step (.quit n r)).1 (b.recvAll (s.step (.quit n r)).2) := by
@@ -282,14 +281,14 @@ theorem coupled_quit {s : Srv} {b : Bot} (hw : SrvWF s) (hc : Coupled s b) (n r 
       have hgen : ∀ (b1 : Bot), b1.nick = b.nick → b1.pfx = b.pfx → b1.cfgNick = b.cfgNick → b1.cfgIdent = b.cfgIdent →
           (∀ x, x ≠ lower n → aget b1.n2h x = aget b.n2h x) →
           (∀ kc, aget b1.channels kc = (aget b.channels kc).map (fun c => if lower n ∈ c.users then c.removeUser u.nick else c)) →
-          Coupled { s.dropEverywhere (lower n) with users := adel s.users (lower n) } b1 := by
+          Coupled { s.dropEverywhere (lower n) with users := adel s.users (lower n), told := sdel s.told (lower n) } b1 := by
         intro b1 h1 h2 h3 h4 h5 h6
         refine ⟨by rw [h1]; exact hc.nick, ?_, ?_, ?_, by rw [h3]; exact hc.cfgNick, by rw [h4]; exact hc.cfgIdent⟩
         · intro kc
-          show ChanRel _ (aget (s.dropEverywhere (lower n)).chans kc) _
+          show ChanRel _ kc (aget (s.dropEverywhere (lower n)).chans kc) _
           rw [aget_dropEverywhere hw.chansNodup, h6 kc]
           have hrel := hc.chans kc
-          have hbk : ({ s.dropEverywhere (lower n) with users := adel s.users (lower n) } : Srv).botKey = s.botKey := rfl
+          have hbk : ({ s.dropEverywhere (lower n) with users := adel s.users (lower n), told := sdel s.told (lower n) } : Srv).botKey = s.botKey := rfl
           cases hsc : aget s.chans kc with
           | none =>
             rw [hsc] at hrel
@@ -324,15 +323,16 @@ theorem coupled_quit {s : Srv} {b : Bot} (hw : SrvWF s) (hc : Coupled s b) (n r 
               · simp only [hin, ↓reduceIte]
                 apply chanMatches_remove_absent hrel.2
                 rw [← Bool.not_eq_true, has_iff]
-                intro hcon; exact hin ((hrel.2.users _).mpr hcon)
+                intro hcon; exact hin ((hrel.2.users_iff _).mpr hcon)
         · intro x ux hux hv
           have hux' : aget (adel s.users (lower n)) x = some ux := hux
+          have hv' : x ∈ sdel s.told (lower n) := hv
           rw [aget_adel] at hux'
           by_cases e : lower n = x
           · simp [e] at hux'
           · simp only [e, ↓reduceIte] at hux'
             rw [h5 x (Ne.symm e)]
-            exact hc.hosts x ux hux' (visible_dropEverywhere hw.chansNodup hv)
+            exact hc.hosts x ux hux' (mem_sdel.mp hv').2
         · intro kc sc' hsc' hb'
           obtain ⟨sc, hsc, rfl⟩ := dropEverywhere_chan hw.chansNodup hsc'
           obtain ⟨ub, hub, hp⟩ := hc.pfx kc sc hsc (has_remove_of hb')
@@ -375,7 +375,7 @@ theorem coupled_quit {s : Srv} {b : Bot} (hw : SrvWF s) (hc : Coupled s b) (n r 
             have : lower n ∉ ch.users := by
               intro hin
               apply hv
-              exact (visible_iff hw.chansNodup).mpr ⟨kc, sc, hsc, hrel.1, has_iff.mpr ((hrel.2.users _).mp hin)⟩
+              exact (visible_iff hw.chansNodup).mpr ⟨kc, sc, hsc, hrel.1, has_iff.mpr ((hrel.2.users_iff _).mp hin)⟩
             simp [this]
 
 end C10
